@@ -3,38 +3,26 @@
 package pc26
 
 import (
-	"encoding/json"
 	"fmt"
-	"runtime"
+	"sort"
 	"testing"
-	"time"
-
-	"github.com/cube2222/octosql/logical"
-	"github.com/cube2222/octosql/octosql"
-	"github.com/cube2222/octosql/physical"
-	"github.com/cube2222/octosql/plugins/verifbridge"
 
 	"verifharness/eng"
 )
 
 func TestProbe(t *testing.T) {
-	env := eng.Env(nil)
-	fields := []physical.SchemaField{{Name: "x_u", Type: octosql.Int}}
-	penv := env.WithRecordSchema(physical.Schema{Fields: fields, TimeField: -1})
-	le := logical.NewFunctionExpression("in", []logical.Expression{logical.NewVariable("x"), logical.NewTuple([]logical.Expression{logical.NewConstant(octosql.NewInt(1)), logical.NewConstant(octosql.NewInt(2))})})
-	pe := le.Typecheck(eng.Context(), penv, logical.Environment{UniqueVariableNames: &logical.VariableMapping{Mapping: map[string]string{"x": "x_u"}}, UniqueNameGenerator: map[string]int{}})
-	b, err := json.Marshal(pe)
-	fmt.Println(string(b), err)
-	var m runtime.MemStats
-	runtime.ReadMemStats(&m)
-	fmt.Println("before", m.HeapAlloc>>20, runtime.NumGoroutine())
-	t0 := time.Now()
-	for i := 0; i < 1000; i++ {
-		var q physical.Expression
-		json.Unmarshal(b, &q)
-		verifbridge.RepopulatePhysicalExpressionFunctions(q)
+	fm := eng.FunctionMap()
+	names := []string{}
+	for n := range fm {
+		names = append(names, n)
 	}
-	runtime.GC()
-	runtime.ReadMemStats(&m)
-	fmt.Println("after 1000", m.HeapAlloc>>20, runtime.NumGoroutine(), time.Since(t0))
+	sort.Strings(names)
+	tot := 0
+	for _, n := range names {
+		for i, d := range fm[n].Descriptors {
+			tot++
+			fmt.Printf("%s#%d args=%v out=%v strict=%v typefn=%v\n", n, i, d.ArgumentTypes, d.OutputType, d.Strict, d.TypeFn != nil)
+		}
+	}
+	fmt.Println(tot)
 }
